@@ -412,7 +412,7 @@ pub fn run(args: &Args) {
     }
     rep.cov("broken_env_dir_evaluations", be);
     rep.cov("path_form_evaluations", pf);
-    rep.cov("evaluations", evals + fix + pf);
+    rep.cov("evaluations", evals + fix + pf + be);
     rep.cov("apply_evaluations", evals);
     rep.cov("fixpoint_cycles_run", fix);
     rep.cov("distinct_nontrivial", outcomes.len() as u64);
